@@ -5,6 +5,7 @@ import (
 	"fmt"
 	"os"
 	"os/exec"
+	"os/signal"
 	"path/filepath"
 	"runtime"
 	"strings"
@@ -66,6 +67,13 @@ func c18Child(args []string) int {
 		fmt.Printf("C18SCRIPT-ERROR %v\n", r.errs)
 		return 3
 	}
+	if fs := os.Getenv("VERIF_FSIZE"); fs != "" {
+		// a real write failure: the file size limit of the process (write returns EFBIG once SIGXFSZ is ignored)
+		var lim uint64
+		fmt.Sscan(fs, &lim)
+		signal.Ignore(syscall.SIGXFSZ)
+		_ = syscall.Setrlimit(syscall.RLIMIT_FSIZE, &syscall.Rlimit{Cur: lim, Max: lim})
+	}
 	err := repl.AutoSave(x.s, opts)
 	if err != nil {
 		fmt.Printf("C18SAVE error: %v\n", err)
@@ -77,6 +85,7 @@ func c18Child(args []string) int {
 
 type c18Pair struct {
 	prevN, newN int
+	link        bool // the previous ./.gr is a symbolic link to a file kept elsewhere
 }
 
 func c18ReadGr(dir string) (string, bool) {
@@ -89,10 +98,10 @@ func c18ReadGr(dir string) (string, bool) {
 
 type c18Env struct {
 	otherFS string // a writable directory on another file system than tmp ("" if none)
-	self   string
-	tmp    string
-	mu     sync.Mutex
-	nextID int
+	self    string
+	tmp     string
+	mu      sync.Mutex
+	nextID  int
 }
 
 func (e *c18Env) dir() string {
@@ -144,7 +153,17 @@ func (e *c18Env) run(dir, script string, extraEnv []string, mode string, wrap []
 
 // prepare builds a directory holding the previous state file (nil bytes = no file).
 func (e *c18Env) prepare(prev string, hasPrev bool) string {
+	return e.prepareLink(prev, hasPrev, false)
+}
+
+func (e *c18Env) prepareLink(prev string, hasPrev, link bool) string {
 	d := e.dir()
+	if hasPrev && link {
+		_ = os.MkdirAll(filepath.Join(d, "dotfiles"), 0o755)
+		_ = os.WriteFile(filepath.Join(d, "dotfiles", "state.gr"), []byte(prev), 0o644)
+		_ = os.Symlink(filepath.Join("dotfiles", "state.gr"), filepath.Join(d, ".gr"))
+		return d
+	}
 	if hasPrev {
 		_ = os.WriteFile(filepath.Join(d, ".gr"), []byte(prev), 0o644)
 	}
@@ -172,18 +191,19 @@ func runC18(c *core.Ctx) {
 	if env.otherFS == "" {
 		c.Note("no_second_filesystem", 1)
 	}
-	pairs := []c18Pair{{0, 1}, {1, 5}, {5, 1}, {5, 40}, {41, -1}}
+	pairs := []c18Pair{{0, 1, false}, {1, 5, false}, {5, 1, false}, {5, 40, false}, {41, -1, false}, {1, 5, true}, {5, 1, true}}
 	if !c.Quick() {
 		pairs = nil
 		for _, p := range []int{0, 1, 5, 40} {
 			for _, n := range []int{1, 5, 40, 0} {
-				pairs = append(pairs, c18Pair{p, n})
+				pairs = append(pairs, c18Pair{p, n, false})
 			}
 		}
-		pairs = append(pairs, c18Pair{41, -1}, c18Pair{41, 1})
+		pairs = append(pairs, c18Pair{41, -1, false}, c18Pair{41, 1, false}, c18Pair{1, 5, true}, c18Pair{5, 1, true}, c18Pair{40, 5, true})
 	}
 	var bounds []string
 	totalPoints := 0
+	fsizePoints := 0
 	report := func(class, detail, casekey string) {
 		c.Report(&core.Viol{Class: class, Detail: detail, Case: core.Case{Kind: "crash", Data: casekey}, FindText: casekey})
 	}
@@ -200,8 +220,8 @@ func runC18(c *core.Ctx) {
 		}
 		newScript := c18Script(pr.newN, "n")
 		// clean run: expected new bytes + hook points hit
-		d := env.prepare(prevBytes, hasPrev)
-		hooklog := filepath.Join(tmp, fmt.Sprintf("hook-%d-%d.log", pr.prevN, pr.newN))
+		d := env.prepareLink(prevBytes, hasPrev, pr.link)
+		hooklog := filepath.Join(tmp, fmt.Sprintf("hook-%d-%d-%v.log", pr.prevN, pr.newN, pr.link))
 		out, code, _ := env.run(d, newScript, []string{"VERIF_HOOKLOG=" + hooklog}, "", nil)
 		if code != 0 {
 			report("harness: clean run failed", out, fmt.Sprint(pr))
@@ -245,6 +265,9 @@ func runC18(c *core.Ctx) {
 		totalPoints += len(points)
 		check := func(kind, point string, dirAfter string, saveOut string, exit int) {
 			key := fmt.Sprintf("prev=%d new=%d %s=%s", pr.prevN, pr.newN, kind, point)
+			if pr.link {
+				key = "symlinked " + key
+			}
 			got, has := c18ReadGr(dirAfter)
 			okPrev := has == hasPrev && got == prevBytes
 			okNew := has == hasNew && got == newBytes
@@ -263,7 +286,7 @@ func runC18(c *core.Ctx) {
 					report(kind+":reload-neither-previous-nor-new", fmt.Sprintf("%s: next session loads %q", key, trunc(o, 300)), key)
 				}
 			}
-			if okPrev || okNew {
+			if (okPrev || okNew) && !strings.HasPrefix(point, "fsize#") {
 				fo, fcode, _ := env.run(dirAfter, followScript, nil, "", nil)
 				fgot, fhas := c18ReadGr(dirAfter)
 				want, whas := followPrev, hasFollowPrev
@@ -296,7 +319,7 @@ func runC18(c *core.Ctx) {
 				defer wg.Done()
 				sem <- struct{}{}
 				defer func() { <-sem }()
-				dd := env.prepare(prevBytes, hasPrev)
+				dd := env.prepareLink(prevBytes, hasPrev, pr.link)
 				o, code, killed := env.run(dd, newScript, []string{"VERIF_CRASH=" + pt}, "", nil)
 				mu.Lock()
 				defer mu.Unlock()
@@ -314,12 +337,49 @@ func runC18(c *core.Ctx) {
 				defer wg.Done()
 				sem <- struct{}{}
 				defer func() { <-sem }()
-				dd := env.prepare(prevBytes, hasPrev)
+				dd := env.prepareLink(prevBytes, hasPrev, pr.link)
 				o, code, _ := env.run(dd, newScript, []string{fmt.Sprintf("VERIF_FAIL=save.binding#%d", i)}, "", nil)
 				mu.Lock()
 				defer mu.Unlock()
 				check("fail", fmt.Sprintf("save.binding#%d", i), dd, o, code)
 			}(i)
+		}
+		// a real write failure at byte positions of the new file (file size limit of the process): every position of a
+		// small file, else a stride plus every position of the last 64 bytes
+		if hasNew && pr.newN > 0 && pr.newN <= 5 {
+			var lims []int
+			L := len(newBytes)
+			if L <= 400 && !pr.link && pr.prevN == 0 {
+				for n := 0; n < L; n++ {
+					lims = append(lims, n)
+				}
+			} else if L <= 400 {
+				for n := 0; n < L; n += 5 {
+					lims = append(lims, n)
+				}
+				lims = append(lims, L-2, L-1)
+			} else {
+				for n := 0; n < L-64; n += L / 48 {
+					lims = append(lims, n)
+				}
+				for n := L - 64; n < L; n++ {
+					lims = append(lims, n)
+				}
+			}
+			fsizePoints += len(lims)
+			for _, n := range lims {
+				wg.Add(1)
+				go func(n int) {
+					defer wg.Done()
+					sem <- struct{}{}
+					defer func() { <-sem }()
+					dd := env.prepareLink(prevBytes, hasPrev, pr.link)
+					o, code, _ := env.run(dd, newScript, []string{fmt.Sprintf("VERIF_FSIZE=%d", n)}, "", nil)
+					mu.Lock()
+					defer mu.Unlock()
+					check("fail", fmt.Sprintf("fsize#%d", n), dd, o, code)
+				}(n)
+			}
 		}
 		wg.Wait()
 		// thorough: a kill and an ENOSPC at every file-syscall boundary (strace fault injection)
@@ -359,7 +419,7 @@ func runC18(c *core.Ctx) {
 		}
 		c.P.Traces++
 	}
-	bounds = append(bounds, fmt.Sprintf("%d (previous, new) state pairs over sizes {none,1,5,40 bindings incl. a 3kB value, a 9 kB state shrunk to under half; TMPDIR on another file system} x every crash point of the clean run (%d points in total: before/after creating the temporary file, after each written binding, after the last write, after the rename) x every write-failure position", len(pairs), totalPoints))
+	bounds = append(bounds, fmt.Sprintf("%d (previous, new) state pairs over sizes {none,1,5,40 bindings incl. a 3kB value, a 9 kB state shrunk to under half; TMPDIR on another file system} x every crash point of the clean run (%d points in total: before/after creating the temporary file, after each written binding, after the last write, after the rename) x every write-failure position (injected per binding; a real EFBIG through the process file size limit at %d byte positions); the previous ./.gr a regular file or a symbolic link to a file kept elsewhere", len(pairs), totalPoints, fsizePoints))
 	if !c.Quick() {
 		bounds = append(bounds, "plus SIGKILL and ENOSPC injected at every file-syscall boundary of the child (strace fault injection) for the pairs with <=5 new bindings")
 	}
@@ -369,9 +429,9 @@ func runC18(c *core.Ctx) {
 func init() {
 	core.RegisterChild("C18-child", c18Child)
 	core.Register(&core.Check{
-		ID:    "C18",
-		Level: "fault_enumeration",
-		Rule: "for each (previous state, new state) pair a child process chdir's into a fresh scratch directory holding the previous ./.gr, runs the real repl.AutoLoad, evaluates the script producing the new state and calls the real repl.AutoSave; the crash points hit by a clean run are discovered through the build-tag hook log, then one child per crash point is killed with a real SIGKILL at that point (no deferred code, no flush) and one child per binding gets an injected write failure; thorough adds SIGKILL / ENOSPC at every file-syscall boundary via strace fault injection. Oracle: ./.gr afterwards is byte-identical to the previous or to the new file (both known from clean runs) and a second child's AutoLoad restores exactly one of the two states; an injected failure is returned by AutoSave and leaves the previous file untouched; an unchanged state does not rewrite the file; a later clean session started in the same directory (which adds one binding) leaves exactly the file it leaves when started from that legal state in a clean directory (leftovers of the interrupted save do not leak into later saves). Non-trivial = every (pair, point).",
+		ID:          "C18",
+		Level:       "fault_enumeration",
+		Rule:        "for each (previous state, new state) pair a child process chdir's into a fresh scratch directory holding the previous ./.gr, runs the real repl.AutoLoad, evaluates the script producing the new state and calls the real repl.AutoSave; the crash points hit by a clean run are discovered through the build-tag hook log, then one child per crash point is killed with a real SIGKILL at that point (no deferred code, no flush) and one child per binding gets an injected write failure; thorough adds SIGKILL / ENOSPC at every file-syscall boundary via strace fault injection. Oracle: ./.gr afterwards is byte-identical to the previous or to the new file (both known from clean runs) and a second child's AutoLoad restores exactly one of the two states; an injected failure is returned by AutoSave and leaves the previous file untouched; an unchanged state does not rewrite the file; a later clean session started in the same directory (which adds one binding) leaves exactly the file it leaves when started from that legal state in a clean directory (leftovers of the interrupted save do not leak into later saves). Non-trivial = every (pair, point).",
 		Assume:      []string{"process death only (the property does not claim durability across power loss: there is no fsync before the rename)", "leftover .grol*.tmp files are allowed"},
 		QuickCap:    100 * time.Second,
 		ThoroughCap: 20 * time.Minute,
